@@ -63,7 +63,9 @@ PROPS = {
     },
     'C20': {
         'modules': ['OtterVerif.Props.C20'],
-        'engines': [seq(['mix', 'load', 'bound'], 300, 10000, lambda f: f['class'] == 'C20')],
+        'engines': [seq(['mix', 'load', 'bound'], 300, 10000, lambda f: f['class'] == 'C20'),
+                    {'kind': 'unit', 'name': 'conclin', 'hcmd': 'conc-lin', 'dcmd': 'conclin', 'quick': 120, 'thorough': 6000, 'chunk': 20, 'args': ['-target', 'cache'],
+                     'accept': lambda f: 'C20' in f['msg']}],
     },
 }
 UNIT_TRUST = ["translator /verif/tools/gen (integer leaf code -> Lean BitVec definitions)",
@@ -86,7 +88,7 @@ PROPS['C18'] = {
 PROPS['C13'] = {
     'modules': ['OtterVerif.Props.C13'],
     'engines': [unit('wheel', 300, 20000, chunk=25),
-                seq(['expiry', 'huge'], 200, 6000, lambda f: f['class'] == 'C13')],
+                seq(['expiry', 'huge'], 200, 6000, lambda f: f['class'] == 'C13' or (f['class'] == 'C06' and 'Expiration' in f['msg']))],
     'rule': 'UNIT-wheel: random Add/Delete/re-Add/DeleteExpired sequences (deadlines across all five levels and their boundaries, deadlines behind the clock, jumps over several revolutions, negative/huge clock origins); '
             'the model must reproduce every bucket in link order and the expired list; the C13 oracle (nothing scheduled is overdue by a full tick, nothing expired early) is evaluated on every sweep. '
             'SEQ: after every CleanUp no entry with deadline + 2^30 < now is physically present. distinct = distinct transcripts with >= 10 lines',
@@ -141,6 +143,32 @@ PROPS['C17'] = {
     'rule': 'UNIT-ring: add/drain phases on one ring incl. full and empty boundaries. CONC-ring: 1-16 recorders racing one draining consumer on the striped buffer (maximum stripes 1..64): accepted vs delivered sets, capacity, quiescent delivery. '
             'SEQ (mix/bound): cache results are exact against Spec, which has no read buffer, with read-heavy scripts that saturate the buffer. distinct = distinct transcripts with >= 10 lines',
     'trusted': UNIT_TRUST + CONC_TRUST + SEQ_TRUST[1:],
+}
+
+def conc(name, hcmd, quick, thorough, chunk, args=None):
+    return {'kind': 'unit', 'name': name, 'hcmd': hcmd, 'dcmd': name, 'quick': quick, 'thorough': thorough, 'chunk': chunk, 'args': args or []}
+
+
+LIN_RULE = ('CONC-lin: 2-8 real goroutines, 1-5 keys, unique written values, every write stamped inside its critical section, automatic removals entered at the atomic deletion handler; '
+            'the Lean judge Lin.checkKey decides linearizability of every key\'s history exactly, that each compute callback ran once, and (cache) hits+misses = counted lookups, (table) Size = keys = Range. distinct = distinct histories with >= 10 operations')
+PROPS['C02'] = {
+    'modules': ['OtterVerif.Props.C02', 'OtterVerif.Props.C15'],
+    'engines': [conc('conclin', 'conc-lin', 240, 12000, 20, ['-target', 'cache']), conc('conclin', 'conc-lin', 120, 6000, 20, ['-target', 'table'])],
+    'rule': LIN_RULE, 'trusted': CONC_TRUST + ['Lin.checkKey (Lean executable) is the judge; the in-critical-section stamps come from user callbacks the cache invokes under the bucket lock'],
+}
+PROPS['C15'] = {
+    'modules': ['OtterVerif.Props.C15'],
+    'engines': [conc('conclin', 'conc-lin', 240, 12000, 20, ['-target', 'table']), conc('conclin', 'conc-lin', 120, 6000, 20, ['-target', 'cache']),
+                seq(['mix', 'bound'], 120, 4000, any_fail)],
+    'rule': LIN_RULE + '; SEQ drives the table through the cache with InitialCapacity 1..1000 (iteration = exactly the live entries, each once)',
+    'trusted': CONC_TRUST + SEQ_TRUST[1:],
+}
+PROPS['C08'] = {
+    'modules': ['OtterVerif.Props.C08'],
+    'engines': [conc('concflight', 'conc-flight', 96, 4000, 8), seq(['load'], 200, 8000, lambda f: f['class'] in ('C08', 'C10') or f['op'] in ('hang', 'call', 'ret', 'end'))],
+    'rule': 'CONC-flight: rounds of 2-9 concurrent Get/BulkGet callers over 1-3 absent keys behind loaders blocked on a gate, outcomes value/error/not-found/panic: loader executions per key never overlap, one execution per successful round, '
+            'callers receive the joined load\'s outcome, no hang, no in-flight record at quiescence. SEQ load profile with a watchdog for operations that never return. distinct = distinct transcripts with >= 10 lines',
+    'trusted': CONC_TRUST + SEQ_TRUST[1:],
 }
 
 for _p in PROPS.values():
